@@ -662,7 +662,7 @@ class HistoryWorld:
                 src = EM.find_rep(sp_, sstep[0], sstep[1], 0) if sp_ is not None else None
                 if src is None:
                     return 'lost'
-                new = src.clone()
+                new = EM.text_order(src.clone())
                 new.key = key
                 if EM.has_empty(new):
                     sut.count_unknown = True     # (C11.write counts elements: see EM.has_empty)
@@ -707,6 +707,8 @@ class HistoryWorld:
                 ci = op['ci']
                 if not (0 <= ci < len(parent.kids)):
                     return 'lost'
+                if parent.kids[ci].kind != new.kind or parent.kids[ci].key != new.key:
+                    return 'lost'      # (an op recorded against another child order: children[i] names the child)
                 parent.kids[ci] = new
             else:
                 rr = r if via == 'item' else 0
